@@ -15,7 +15,7 @@ MOD = "codec/Lines.tla"
 TMOD = "codec/LinesTrace.tla"
 NEGS = {"NEG_C15_StripAllCR.cfg": "C15_Decode", "NEG_C15_SplitAtCR.cfg": "C15_Decode",
         "NEG_C15_DropFinal.cfg": "C15_Decode", "NEG_C15_LossyUtf8.cfg": "C15_Decode",
-        "NEG_C15_EncodeLFs.cfg": "C15_Encode"}
+        "NEG_C15_EncodeLFs.cfg": "C15_Encode", "NEG_C15_EofSkipsDecode.cfg": "C15_EofOnly"}
 
 
 def assume_lines():
